@@ -1,7 +1,7 @@
 (* FiltChain.v — paths whose steps may be existence filters: `$` then any sequence of steps (names, indexes, wildcards,
    slices, unions, each possibly after `..`) and filters [?(@ steps)].  The chain-level inductions of ChainParse, redone
    over the larger step type; the per-step facts come from ChainParse (ordinary steps) and FiltParse (filters). *)
-From JP Require Import Peg Grammar Text Tree Actions PegFacts PegMono PegEv FuelRules ParseFacts KeyDefs KeyParse IdxParse SliceParse UnionParse WildParse RecParse ChainParse SpacePath FunParse AggParse Frame FiltParse CmpParse CmpSpace NegFilt QueryParse FiltSpace QuerySpace.
+From JP Require Import Peg Grammar Text Tree Actions PegFacts PegMono PegEv FuelRules ParseFacts KeyDefs KeyParse IdxParse SliceParse UnionParse WildParse RecParse ChainParse SpacePath FunParse AggParse Frame FiltParse CmpParse CmpSpace NegFilt QueryParse FiltSpace QuerySpace QueryTree.
 From Coq Require Import Lia.
 Local Open Scope N_scope.
 Open Scope list_scope.
@@ -9,24 +9,25 @@ Open Scope list_scope.
 Definition is_filt (x : fstep) : bool := match x with FS _ | FR _ => false | _ => true end.
 Fixpoint fstep_ok (x : fstep) : bool :=
   match x with FS y => rstep_ok y | FE i | FN i => forallb rstep_ok i | FC i o lit | FCS i _ _ o _ _ lit => forallb rstep_ok i && negb (steps_vg i) && lit_ok lit | FQ d => dnf_ok d
-             | FR y => is_filt y && fstep_ok y | FES _ _ _ i _ => forallb rstep_ok i | FQS _ d => sdnf_ok d end.
+             | FR y => is_filt y && fstep_ok y | FES _ _ _ i _ => forallb rstep_ok i | FQS _ d => sdnf_ok d | FT t => wf 2 t end.
 Fixpoint fstep_tokens (p : nat) (x : fstep) : list token :=
   match x with FS y => rstep_tokens p y | FE i => filt_tokens p i | FC i o lit => cmp_tokens p i o lit | FN i => neg_tokens p i | FQ d => fq_tokens p d
-             | FR y => fstep_tokens (p + 2) y ++ [TAct 3] | FCS i g0 a o b g1 lit => scmp_tokens p i g0 a o b g1 lit | FES neg g0 gn i g1 => fes_tokens p neg g0 gn i g1 | FQS g0 d => sfq_tokens p g0 d end.
+             | FR y => fstep_tokens (p + 2) y ++ [TAct 3] | FCS i g0 a o b g1 lit => scmp_tokens p i g0 a o b g1 lit | FES neg g0 gn i g1 => fes_tokens p neg g0 gn i g1 | FQS g0 d => sfq_tokens p g0 d | FT t => ft_tokens p t end.
 Fixpoint fsteps_tokens (p : nat) (l : list fstep) : list token :=
   match l with [] => [] | x :: r => fstep_tokens p x ++ fsteps_tokens (p + List.length (render_fstep x)) r end.
 
 Lemma filt_text_len i : List.length (filt_text i) = (6 + List.length (render_steps i))%nat.
 Proof. unfold filt_text. cbn [app List.length]. rewrite app_length. cbn [List.length]. lia. Qed.
 Lemma render_fstep_len_pos x : (1 <= List.length (render_fstep x))%nat.
-Proof. destruct x as [y|i|i o lit|i|d|y|i g0 a o b g1 lit|neg g0 gn i g1|g0' d']; cbn [render_fstep]; [apply render_rstep_len_pos|rewrite filt_text_len; lia|rewrite cmp_text_len; lia|rewrite neg_text_len; lia|rewrite fq_text_len; lia|cbn [List.length]; lia|rewrite scmp_text_len; lia|rewrite fes_text_len; lia|rewrite sfq_text_len; lia]. Qed.
+Proof. destruct x as [y|i|i o lit|i|d|y|i g0 a o b g1 lit|neg g0 gn i g1|g0' d'|t']; cbn [render_fstep]; [apply render_rstep_len_pos|rewrite filt_text_len; lia|rewrite cmp_text_len; lia|rewrite neg_text_len; lia|rewrite fq_text_len; lia|cbn [List.length]; lia|rewrite scmp_text_len; lia|rewrite fes_text_len; lia|rewrite sfq_text_len; lia|rewrite ft_text_len; lia]. Qed.
 
 Lemma fsteps_stop l : dot_stop (render_fsteps l).
 Proof.
-  destruct l as [|[y|i|i o lit|i|d|y|i g0 a o b g1 lit|neg g0 gn i g1|g0' d'] r]; [exact I| | | | | | | | |].
+  destruct l as [|[y|i|i o lit|i|d|y|i g0 a o b g1 lit|neg g0 gn i g1|g0' d'|t'] r]; [exact I| | | | | | | | | |].
   - pose proof (steps_stop [y]) as H. unfold render_steps in H. cbn [flat_map] in H. rewrite app_nil_r in H.
     unfold render_fsteps. cbn [flat_map render_fstep]. pose proof (render_rstep_len_pos y) as Hl.
     destruct (render_rstep y) as [|c t]; [cbn [List.length] in Hl; lia|exact H].
+  - cbn. repeat split; try reflexivity; discriminate.
   - cbn. repeat split; try reflexivity; discriminate.
   - cbn. repeat split; try reflexivity; discriminate.
   - cbn. repeat split; try reflexivity; discriminate.
@@ -39,7 +40,7 @@ Qed.
 
 (* a filter step is a bracket: childNode reads it through its last alternative, bracketNode *)
 Lemma filt_head x : is_filt x = true -> exists s, render_fstep x = 91 :: s.
-Proof. destruct x as [y|i|i o lit|i|d|y|i g0 a o b g1 lit|neg g0 gn i g1|g0' d']; intros H; try discriminate H; eexists; reflexivity. Qed.
+Proof. destruct x as [y|i|i o lit|i|d|y|i g0 a o b g1 lit|neg g0 gn i g1|g0' d'|t']; intros H; try discriminate H; eexists; reflexivity. Qed.
 Lemma rule7_to_10 s pos R : evG (PRef 7) (91 :: s) pos R -> evG (PRef 10) (91 :: s) pos R.
 Proof.
   intros [Hn [f0 H]]. split; [exact Hn|]. exists (S f0). intros f Hf. destruct f as [|f]; [lia|].
@@ -49,7 +50,7 @@ Qed.
 Lemma ev_rule7_filt x rest pos : is_filt x = true -> fstep_ok x = true ->
   evG (PRef 7) (render_fstep x ++ rest) pos (POk rest (pos + List.length (render_fstep x)) (fstep_tokens pos x)).
 Proof.
-  intros Hf Hs. destruct x as [y|i|i o lit|i|d|y|i g0 a o b g1 lit|neg g0 gn i g1|g0' d']; try discriminate Hf; cbn [render_fstep fstep_tokens fstep_ok] in *; [| |apply (ev_rule7_neg i rest pos Hs)|apply (ev_rule7_fq d rest pos Hs)| |apply (ev_rule7_fes neg g0 gn i g1 rest pos Hs)|apply (ev_rule7_sfq g0' d' rest pos Hs)].
+  intros Hf Hs. destruct x as [y|i|i o lit|i|d|y|i g0 a o b g1 lit|neg g0 gn i g1|g0' d'|t']; try discriminate Hf; cbn [render_fstep fstep_tokens fstep_ok] in *; [| |apply (ev_rule7_neg i rest pos Hs)|apply (ev_rule7_fq d rest pos Hs)| |apply (ev_rule7_fes neg g0 gn i g1 rest pos Hs)|apply (ev_rule7_sfq g0' d' rest pos Hs)|apply (ev_rule7_ft t' rest pos Hs)].
   - eapply ev_conv; [apply (ev_rule7_exists i rest pos Hs)|]. rewrite filt_text_len. f_equal. lia.
   - apply andb_true_iff in Hs. destruct Hs as [Hs Hl]. apply andb_true_iff in Hs. destruct Hs as [Hs _]. apply (ev_rule7_cmp i o lit rest pos Hs Hl).
   - apply andb_true_iff in Hs. destruct Hs as [Hs Hl]. apply andb_true_iff in Hs. destruct Hs as [Hs _]. apply (ev_rule7_scmp i g0 a o b g1 lit rest pos Hs Hl).
@@ -58,7 +59,7 @@ Qed.
 Lemma ev_rule7_fstep x rest pos : fstep_ok x = true -> dot_stop rest ->
   evG (PRef 7) (render_fstep x ++ rest) pos (POk rest (pos + List.length (render_fstep x)) (fstep_tokens pos x)).
 Proof.
-  intros Hs Hr. destruct x as [y|i|i o lit|i|d|y|i g0 a o b g1 lit|neg g0 gn i g1|g0' d']; [apply ev_rule7_rstep; assumption|apply ev_rule7_filt; [reflexivity|exact Hs]..| |apply ev_rule7_filt; [reflexivity|exact Hs]|apply ev_rule7_filt; [reflexivity|exact Hs]|apply ev_rule7_filt; [reflexivity|exact Hs]].
+  intros Hs Hr. destruct x as [y|i|i o lit|i|d|y|i g0 a o b g1 lit|neg g0 gn i g1|g0' d'|t']; [apply ev_rule7_rstep; assumption|apply ev_rule7_filt; [reflexivity|exact Hs]..| |apply ev_rule7_filt; [reflexivity|exact Hs]|apply ev_rule7_filt; [reflexivity|exact Hs]|apply ev_rule7_filt; [reflexivity|exact Hs]|apply ev_rule7_filt; [reflexivity|exact Hs]].
   cbn [fstep_ok] in Hs. apply andb_true_iff in Hs. destruct Hs as [Hf Hs]. cbn [render_fstep fstep_tokens app].
   destruct (filt_head y Hf) as (s & Es).
   pose proof (ev_rule7_filt y rest (pos + 2) Hf Hs) as E7. rewrite Es in E7. cbn [app] in E7.
@@ -124,7 +125,7 @@ Section FChainExec.
   (* the number a literal denotes (strconv.ParseFloat, a parameter of the model) *)
   Definition lit_num (lit : list N) : num := match parse_float (text_of lit) with Some f => f | None => Fin 0 0 end.
   Fixpoint fstep_okp (x : fstep) : bool :=
-    match x with FC _ _ lit => match parse_float (text_of lit) with Some _ => true | None => false end | FQ d => dnf_okp parse_float regex_ok d | FQS _ d => sdnf_okp parse_float regex_ok d
+    match x with FC _ _ lit => match parse_float (text_of lit) with Some _ => true | None => false end | FQ d => dnf_okp parse_float regex_ok d | FQS _ d => sdnf_okp parse_float regex_ok d | FT t => qt_okp parse_float regex_ok t
                | FR y => fstep_okp y | FCS _ _ _ _ _ _ lit => match parse_float (text_of lit) with Some _ => true | None => false end | _ => true end.
   Fixpoint fpre_of (x : fstep) : list (kind * basic) :=
     match x with
@@ -137,6 +138,7 @@ Section FChainExec.
     | FCS i g0 a o b g1 lit => [(cmp_kind cfg i o (lit_num lit), scmp_basic cfg i g0 a o b g1 lit)]
     | FES neg g0 gn i g1 => [(fes_kind cfg neg i, fes_basic cfg neg g0 gn i g1)]
     | FQS g0 d => [(fq_kind cfg parse_float (unspace_dnf d), sfq_basic cfg g0 d)]
+    | FT t => [(ft_kind cfg parse_float t, ft_basic cfg t)]
     end.
   Definition fnode_of (x : fstep) : node :=
     match fpre_of x with x0 :: r => Node (fst x0) (snd x0) (link r) | [] => nil_node end.
@@ -144,22 +146,23 @@ Section FChainExec.
 
   Lemma fpre_plain x : plainl (fpre_of x).
   Proof.
-    induction x as [y|i|i o lit|i|d|y IH|i g0 a o b g1 lit|neg g0 gn i g1|g0' d']; cbn [fpre_of]; [apply rstep_pre_plain| | | | | | | |]; try (constructor; [split; intros; discriminate|constructor]).
+    induction x as [y|i|i o lit|i|d|y IH|i g0 a o b g1 lit|neg g0 gn i g1|g0' d'|t']; cbn [fpre_of]; [apply rstep_pre_plain| | | | | | | | |]; try (constructor; [split; intros; discriminate|constructor]).
     - constructor; [split; intros; discriminate|exact IH].
     - destruct neg; (constructor; [split; intros; discriminate|constructor]).
   Qed.
   Lemma fpres_plain l : plainl (fpres l).
   Proof. induction l as [|x r IH]; [constructor|]. unfold fpres. cbn [flat_map]. apply Forall_app. split; [apply fpre_plain|exact IH]. Qed.
   Lemma fpre_nonempty x : fpre_of x <> [].
-  Proof. destruct x as [[s|s]|i|i o lit|i|d|y|i g0 a o b g1 lit|neg g0 gn i g1|g0' d']; discriminate. Qed.
+  Proof. destruct x as [[s|s]|i|i o lit|i|d|y|i g0 a o b g1 lit|neg g0 gn i g1|g0' d'|t']; discriminate. Qed.
 
   Lemma filt_single x : is_filt x = true -> exists k b, fpre_of x = [(k, b)] /\ exists q, k = KFilter q.
-  Proof. destruct x as [y|i|i o lit|i|d|y|i g0 a o b g1 lit|neg g0 gn i g1|g0' d']; intros H; try discriminate H; cbn [fpre_of]; eexists _, _; (split; [reflexivity|]); try (eexists; reflexivity); destruct neg; eexists; reflexivity. Qed.
+  Proof. destruct x as [y|i|i o lit|i|d|y|i g0 a o b g1 lit|neg g0 gn i g1|g0' d'|t']; intros H; try discriminate H; cbn [fpre_of]; eexists _, _; (split; [reflexivity|]); try (eexists; reflexivity); destruct neg; eexists; reflexivity. Qed.
 
   Lemma exec_fstep input x : forall p ps toks cps b rest, fstep_ok x = true -> fstep_okp x = true -> skipn p input = render_fstep x ++ rest ->
     exists cps' b', execute (fstep_tokens p x ++ toks) input cps b (mk ps) = execute toks input cps' b' (mk (ps ++ [INode (fnode_of x)])).
   Proof.
-    induction x as [y|i|i o lit|i|d|y IH|i g0 a o b0 g1 lit|neg g0 gn i g1|g0' d']; intros p ps toks cps b rest Hs Hp Hin; cbn [fstep_ok fstep_okp fstep_tokens render_fstep] in *.
+    induction x as [y|i|i o lit|i|d|y IH|i g0 a o b0 g1 lit|neg g0 gn i g1|g0' d'|t']; intros p ps toks cps b rest Hs Hp Hin; cbn [fstep_ok fstep_okp fstep_tokens render_fstep] in *.
+    10: { apply (exec_ft cfg parse_float regex_ok input p t' rest ps toks cps b (wf_leaves t' 2 Hs) Hp Hin). }
     9: { apply (exec_sfq cfg parse_float regex_ok input p g0' d' rest ps toks cps b Hs Hp Hin). }
     8: { apply (exec_fes cfg parse_float regex_ok input p neg g0 gn i g1 rest ps toks cps b Hs Hin). }
     7: { apply andb_true_iff in Hs. destruct Hs as [Hs Hl]. apply andb_true_iff in Hs. destruct Hs as [Hs Hvg]. apply negb_true_iff in Hvg.
@@ -198,7 +201,7 @@ Section FChainExec.
   Proof. intros p ps toks cps b Hs Hp Hin. apply (exec_fsteps_tail input l [] p ps toks cps b Hs Hp). rewrite app_nil_r. exact Hin. Qed.
 
   Lemma fnode_not_agg root x : chain_step (AOk root) (INode (fnode_of x)) = AOk (append_deep root (fnode_of x)).
-  Proof. destruct x as [y|i|i o lit|i|d|y|i g0 a o b g1 lit|neg g0 gn i g1|g0' d']; [apply (rpre_not_agg cfg)|reflexivity|reflexivity|reflexivity|reflexivity|reflexivity|reflexivity|destruct neg; reflexivity|reflexivity]. Qed.
+  Proof. destruct x as [y|i|i o lit|i|d|y|i g0 a o b g1 lit|neg g0 gn i g1|g0' d'|t']; [apply (rpre_not_agg cfg)|reflexivity|reflexivity|reflexivity|reflexivity|reflexivity|reflexivity|destruct neg; reflexivity|reflexivity|reflexivity]. Qed.
 
   Lemma chain_fold_f k b l : plain_kind k -> forall l0, plainl l0 ->
     fold_left chain_step (map (fun s => INode (fnode_of s)) l) (AOk (Node k b (link l0))) = AOk (Node k b (link (l0 ++ fpres l))).
